@@ -20,6 +20,8 @@ MCOutEntries == {"strict-client", "rfc003", "iam-clientmetadata", "iam-presentat
                  "early-new", "early-cache", "early-tls"}
 MCContexts   == {"embedded", "listed", "unlisted"}
 MCAllowLists == {"default", "with-url"}
+MCNearRels   == AllNearRels
+MCAnchors    == {"remote-mapped", "mapped-only", "operator"}
 
 \* the action guards read v.strict and v.dummy only: emit the (vector x action) cases from one canonical vector per (strict, dummy)
 MCActCanonical(vv) == /\ vv.url = "https-name" /\ vv.tls = "on" /\ vv.crypto = "fs" /\ vv.sql = "sqlite" /\ vv.irma = "pbdf" /\ vv.did = "web,nuts"
